@@ -35,51 +35,51 @@ theorem take_drop_self {α : Type} (l : List α) (k : Nat) : (l.drop k).take (l.
 
 /-! ### the VM operations on a value that has a sequence view -/
 
-theorem strBounds_noRange (bs : List Nat) (i j : Nat) : noRange (strBounds bs i j) = true := by
+theorem strBounds_plain (bs : List Nat) (i j : Nat) : plain (strBounds bs i j) = true := by
   unfold strBounds; split <;> rfl
 
-theorem noRangeL_map_str (bs : List Nat) (l : List Nat) :
-    noRangeL (l.map (fun i => strBounds bs i (i + 1))) = true := by
+theorem plainL_map_str (bs : List Nat) (l : List Nat) :
+    plainL (l.map (fun i => strBounds bs i (i + 1))) = true := by
   induction l with
   | nil => rfl
-  | cons a t ih => simp [noRangeL, ih, strBounds_noRange]
+  | cons a t ih => simp [plainL, ih, strBounds_plain]
 
-theorem noRangeL_map_pair (es : List (Val × Val)) (h : noRangeM es = true) :
-    noRangeL (es.map pairOf) = true := by
+theorem plainL_map_pair (es : List (Val × Val)) (h : plainM es = true) :
+    plainL (es.map pairOf) = true := by
   induction es with
   | nil => rfl
   | cons e t ih =>
     obtain ⟨k, v⟩ := e
-    simp [noRangeM] at h
-    simp [noRangeL, pairOf, noRange, h, ih]
+    simp [plainM] at h
+    simp [plainL, pairOf, plain, h, ih]
 
-theorem view_noRange {v : Val} {xs sl} (h : view v = some (xs, sl)) (hr : noRange v = true) :
-    noRangeL xs = true := by
+theorem view_plain {v : Val} {xs sl} (h : view v = some (xs, sl)) (hr : plain v = true) :
+    plainL xs = true := by
   cases v with
-  | tuple ys => simp [view] at h; obtain ⟨rfl, _⟩ := h; simpa [noRange] using hr
-  | list ys => simp [view] at h; obtain ⟨rfl, _⟩ := h; simpa [noRange] using hr
-  | str bs => simp [view] at h; obtain ⟨rfl, _⟩ := h; exact noRangeL_map_str _ _
-  | map es => simp [view] at h; obtain ⟨rfl, _⟩ := h; exact noRangeL_map_pair _ (by simpa [noRange] using hr)
+  | tuple ys => simp [view] at h; obtain ⟨rfl, _⟩ := h; simpa [plain] using hr
+  | list ys => simp [view] at h; obtain ⟨rfl, _⟩ := h; simpa [plain] using hr
+  | str bs => simp [view] at h; obtain ⟨rfl, _⟩ := h; exact plainL_map_str _ _
+  | map es => simp [view] at h; obtain ⟨rfl, _⟩ := h; exact plainL_map_pair _ (by simpa [plain] using hr)
   | _ => simp [view] at h
 
-theorem noRangeL_append (xs ys : List Val) :
-    noRangeL (xs ++ ys) = (noRangeL xs && noRangeL ys) := by
+theorem plainL_append (xs ys : List Val) :
+    plainL (xs ++ ys) = (plainL xs && plainL ys) := by
   induction xs with
-  | nil => simp [noRangeL]
-  | cons a t ih => simp [noRangeL, ih, Bool.and_assoc]
+  | nil => simp [plainL]
+  | cons a t ih => simp [plainL, ih, Bool.and_assoc]
 
-theorem noRangeL_take (xs : List Val) (k : Nat) (h : noRangeL xs = true) : noRangeL (xs.take k) = true := by
-  have := noRangeL_append (xs.take k) (xs.drop k)
+theorem plainL_take (xs : List Val) (k : Nat) (h : plainL xs = true) : plainL (xs.take k) = true := by
+  have := plainL_append (xs.take k) (xs.drop k)
   rw [List.take_append_drop, h] at this
   simp at this; exact this.1
 
-theorem noRangeL_drop (xs : List Val) (k : Nat) (h : noRangeL xs = true) : noRangeL (xs.drop k) = true := by
-  have := noRangeL_append (xs.take k) (xs.drop k)
+theorem plainL_drop (xs : List Val) (k : Nat) (h : plainL xs = true) : plainL (xs.drop k) = true := by
+  have := plainL_append (xs.take k) (xs.drop k)
   rw [List.take_append_drop, h] at this
   simp at this; exact this.2
 
-theorem view_none_size {v : Val} (h : view v = none) (hr : noRange v = true) : vmSize v = none := by
-  cases v <;> simp_all [view, vmSize, noRange]
+theorem view_none_size {v : Val} (h : view v = none) (hr : plain v = true) : vmSize v = none := by
+  cases v <;> simp_all [view, vmSize, plain]
 
 theorem view_size {v : Val} {xs sl} (h : view v = some (xs, sl)) : vmSize v = some xs.length := by
   cases v with
@@ -236,14 +236,14 @@ theorem mEnts_spec (es : List Ent) (v : Val) (ρ : Env) :
 /-! ### the correctness statement (last alternative) -/
 
 def Spec (F : FloatOps) (C : Cfg) (p : Pat) : Prop :=
-  ∀ (il : Bool) (a : Acc) (ρ : Env) (v : Val), Reads a v → noRange v = true →
+  ∀ (il : Bool) (a : Acc) (ρ : Env) (v : Val), Reads a v → plain v = true →
     (∀ β, Decl F p v β → mPat F C true p il a ρ = .ok (ρ.apply β)) ∧
     (∀ ρ', mPat F C true p il a ρ = .ok ρ' → ∃ β, Decl F p v β ∧ ρ' = ρ.apply β) ∧
     (∀ ρ', mPat F C true p il a ρ ≠ .done ρ')
 
 def SpecL (F : FloatOps) (C : Cfg) (ps : List Pat) : Prop :=
   ∀ (c : Val) (i : Int) (lf : Bool) (ρ : Env) (ys : List Val), ys.length = ps.length →
-    (∀ j (h : j < ys.length), tempIndex c (i + (j : Int)) = .ok ys[j]) → noRangeL ys = true →
+    (∀ j (h : j < ys.length), tempIndex c (i + (j : Int)) = .ok ys[j]) → plainL ys = true →
     (∀ β, DeclAll F ps ys β → mPats F C true ps (.tmp c) i lf ρ = .ok (ρ.apply β)) ∧
     (∀ ρ', mPats F C true ps (.tmp c) i lf ρ = .ok ρ' → ∃ β, DeclAll F ps ys β ∧ ρ' = ρ.apply β) ∧
     (∀ ρ', mPats F C true ps (.tmp c) i lf ρ ≠ .done ρ')
@@ -315,7 +315,7 @@ theorem specL_cons (F : FloatOps) (p : Pat) (ps : List Pat) (hp : Spec F C p) (h
       have h0 := hidx 0 (by simp)
       rw [List.getElem_cons_zero] at h0
       exact Or.inr ⟨c, i, rfl, by simpa using h0⟩
-    simp only [noRangeL, Bool.and_eq_true] at hnr
+    simp only [plainL, Bool.and_eq_true] at hnr
     have hlen' : ys'.length = ps.length := by simpa using hlen
     have hidx' : ∀ j (h : j < ys'.length), tempIndex c (i + 1 + (j : Int)) = .ok ys'[j] := by
       intro j h
@@ -446,7 +446,7 @@ theorem spec_exact (F : FloatOps) (pre : List Pat) (hpre : pre ≠ []) (hs : Spe
     have hidx : ∀ j (h : j < xs.length), tempIndex v ((0 : Int) + (j : Int)) = .ok xs[j] := by
       intro j h; simpa using view_index hv j h
     by_cases hl : xs.length = pre.length
-    · have sp := hs v 0 (if C.nestedLast then il else true) ρ xs hl hidx (view_noRange hv hnr)
+    · have sp := hs v 0 (if C.nestedLast then il else true) ρ xs hl hidx (view_plain hv hnr)
       simp only [hl, beq_self_eq_true]
       refine ⟨?_, ?_, sp.2.2⟩
       · rintro β ⟨xs', sl', a', mid, b, β₁, β₂, hv', hx, hm, h1, h2, rfl⟩
@@ -491,7 +491,7 @@ theorem spec_trailing (F : FloatOps) (pre : List Pat) (r : Option Name) (hs : Sp
         intro j h
         have hj : j < xs.length := by simp at h; omega
         simpa [List.getElem_take] using view_index hv j hj
-      have sp := hs v 0 false ρ (xs.take pre.length) hlen hidx (noRangeL_take _ _ (view_noRange hv hnr))
+      have sp := hs v 0 false ρ (xs.take pre.length) hlen hidx (plainL_take _ _ (view_plain hv hnr))
       have hsl := view_sliceFrom (C := C) hv pre.length hl
       refine ⟨?_, ?_, ?_⟩
       · rintro β ⟨xs', sl', a', mid, b, β₁, β₂, hv', hx, _, h1, h2, rfl⟩
@@ -575,7 +575,7 @@ theorem spec_leading (F : FloatOps) (post : List Pat) (r : Option Name) (hpost :
       have hsl := view_sliceTo (C := C) hv post.length hq hl
       have key : ∀ ρ1 : Env, _ := fun ρ1 =>
         hs v (-(post.length : Int)) (if C.nestedLast then il else true) ρ1 (xs.drop (xs.length - post.length)) hlen hidx
-          (noRangeL_drop _ _ (view_noRange hv hnr))
+          (plainL_drop _ _ (view_plain hv hnr))
       refine ⟨?_, ?_, ?_⟩
       · rintro β ⟨xs', sl', a', mid, b, β₁, β₂, hv', hx, _, h1, h2, rfl⟩
         simp only [Option.some.injEq, Prod.mk.injEq] at hv'
@@ -758,13 +758,13 @@ theorem earlyFreeL_false_noSeq : ∀ (ps : List Pat), wfL ps = true → earlyFre
 
 /-- success of a whole pattern in a non-last alternative = the jump to `match_end` -/
 def SpecN (F : FloatOps) (C : Cfg) (p : Pat) : Prop :=
-  ∀ (a : Acc) (ρ : Env) (v : Val), Reads a v → noRange v = true →
+  ∀ (a : Acc) (ρ : Env) (v : Val), Reads a v → plain v = true →
     (∀ β, Decl F p v β → mPat F C false p true a ρ = .done (ρ.apply β)) ∧
     (∀ ρ', mPat F C false p true a ρ = .done ρ' → ∃ β, Decl F p v β ∧ ρ' = ρ.apply β)
 
 def SpecNL (F : FloatOps) (C : Cfg) (ps : List Pat) : Prop :=
   ∀ (c : Val) (i : Int) (ρ : Env) (ys : List Val), ys.length = ps.length →
-    (∀ j (h : j < ys.length), tempIndex c (i + (j : Int)) = .ok ys[j]) → noRangeL ys = true →
+    (∀ j (h : j < ys.length), tempIndex c (i + (j : Int)) = .ok ys[j]) → plainL ys = true →
     (∀ β, DeclAll F ps ys β → mPats F C false ps (.tmp c) i true ρ = .done (ρ.apply β)) ∧
     (∀ ρ', mPats F C false ps (.tmp c) i true ρ = .done ρ' → ∃ β, DeclAll F ps ys β ∧ ρ' = ρ.apply β)
 
@@ -827,7 +827,7 @@ theorem specNL_single (F : FloatOps) (p : Pat) (hp : SpecN F C p) : SpecNL F C [
       have h0 := hidx 0 (by simp)
       rw [List.getElem_cons_zero] at h0
       exact Or.inr ⟨c, i, rfl, by simpa using h0⟩
-    simp only [noRangeL, Bool.and_eq_true] at hnr
+    simp only [plainL, Bool.and_eq_true] at hnr
     have sp := hp (.elem (.tmp c) i) ρ y hy hnr.1
     simp only [mPats, List.isEmpty_nil, Bool.and_self]
     constructor
@@ -857,7 +857,7 @@ theorem specNL_cons (F : FloatOps) (p q : Pat) (ps : List Pat) (hn : notSeq p = 
       have h0 := hidx 0 (by simp)
       rw [List.getElem_cons_zero] at h0
       exact Or.inr ⟨c, i, rfl, by simpa using h0⟩
-    simp only [noRangeL, Bool.and_eq_true] at hnr
+    simp only [plainL, Bool.and_eq_true] at hnr
     have hlen' : ys'.length = (q :: ps).length := by simpa using hlen
     have hidx' : ∀ j (h : j < ys'.length), tempIndex c (i + 1 + (j : Int)) = .ok ys'[j] := by
       intro j h
@@ -904,7 +904,7 @@ theorem specN_exact (F : FloatOps) (pre : List Pat) (hpre : pre ≠ []) (hs : Sp
     have hidx : ∀ j (h : j < xs.length), tempIndex v ((0 : Int) + (j : Int)) = .ok xs[j] := by
       intro j h; simpa using view_index hv j h
     by_cases hl : xs.length = pre.length
-    · have sp := hs v 0 ρ xs hl hidx (view_noRange hv hnr)
+    · have sp := hs v 0 ρ xs hl hidx (view_plain hv hnr)
       simp only [hl, beq_self_eq_true]
       refine ⟨?_, ?_⟩
       · rintro β ⟨xs', sl', a', mid, b, β₁, β₂, hv', hx, hm, h1, h2, rfl⟩
@@ -952,7 +952,7 @@ theorem specN_trailing (F : FloatOps) (pre : List Pat) (r : Option Name) (hs : S
         intro j h
         have hj : j < xs.length := by simp at h; omega
         simpa [List.getElem_take] using view_index hv j hj
-      have sp := hs v 0 false ρ (xs.take pre.length) hlen hidx (noRangeL_take _ _ (view_noRange hv hnr))
+      have sp := hs v 0 false ρ (xs.take pre.length) hlen hidx (plainL_take _ _ (view_plain hv hnr))
       have hsl := view_sliceFrom (C := C) hv pre.length hl
       refine ⟨?_, ?_⟩
       · rintro β ⟨xs', sl', a', mid, b, β₁, β₂, hv', hx, _, h1, h2, rfl⟩
@@ -1027,7 +1027,7 @@ theorem specN_leading (F : FloatOps) (post : List Pat) (r : Option Name) (hpost 
       have hsl := view_sliceTo (C := C) hv post.length hq hl
       have key : ∀ ρ1 : Env, _ := fun ρ1 =>
         hs v (-(post.length : Int)) ρ1 (xs.drop (xs.length - post.length)) hlen hidx
-          (noRangeL_drop _ _ (view_noRange hv hnr))
+          (plainL_drop _ _ (view_plain hv hnr))
       refine ⟨?_, ?_⟩
       · rintro β ⟨xs', sl', a', mid, b, β₁, β₂, hv', hx, _, h1, h2, rfl⟩
         simp only [Option.some.injEq, Prod.mk.injEq] at hv'
